@@ -25,7 +25,7 @@ ASSUMPTIONS = ["wf_history (hash field = header hash for validated operations, c
 TRUSTED = ["modelled not verified: SQLite DELETE ... seq_num < ?, sqlx transactions"]
 RULE = ("quick: all delivery orders of one 4-entry log for the 11 flag patterns with >= 2 prune points, of six 5-entry logs with 2-4 prune "
         "points, 300 random prune-heavy histories with late re-delivery; the finding's witness first; thorough: all orders of all 26 "
-        "5-entry patterns with >= 2 prune points, four 6-entry patterns, 3000 random. non-trivial = a prune point was ingested and a later "
+        "5-entry patterns with >= 2 prune points, two 6-entry patterns, 2000 random. non-trivial = a prune point was ingested and a later "
         "delivery of an operation of the same log with a smaller sequence number was attempted")
 NONTRIVIAL_FLOOR = 50
 
@@ -43,9 +43,9 @@ def gen(tier, rng):
         for flags in itertools.product([0, 1], repeat=5):
             if sum(flags) >= 2:
                 yield from L.single_log_permutations(list(flags))
-        for flags in ([0, 1, 0, 1, 0, 1], [1, 0, 0, 1, 1, 0], [0, 0, 1, 0, 1, 1], [0, 1, 1, 1, 0, 0]):
+        for flags in ([0, 1, 0, 1, 0, 1], [1, 0, 0, 1, 1, 0]):
             yield from L.single_log_permutations(flags)
-        for _ in range(3000):
+        for _ in range(2000):
             yield L.random_history(rng, big=True, prune_p=0.5, late_p=0.8)
 
 
